@@ -134,8 +134,11 @@ class NewThreadInvoker {
     // this thread at exit in a shared build.
     detail::ensureNewThreadDrainRegistered();
     auto done = std::make_shared<std::atomic<bool>>(false);
-    std::thread thread([f = std::move(f), done]() {
-      f();
+    // f may be over-aligned (OnceFunction is cache-line aligned): std::thread allocates its closure
+    // with plain operator new, which does not honour that before C++17.  Keep f in aligned storage.
+    auto func = detail::make_shared<std::decay_t<F>>(std::move(f));
+    std::thread thread([func = std::move(func), done]() {
+      (*func)();
       done->store(true, std::memory_order_release);
     });
     getTracker()->add(std::move(thread), std::move(done));
